@@ -8761,11 +8761,12 @@ tsk_ibd_finder_init(tsk_ibd_finder_t *self, const tsk_table_collection_t *tables
 
     tsk_memset(self, 0, sizeof(tsk_ibd_finder_t));
 
-    if (min_span < 0) {
+    /* Written so that NaN is rejected too */
+    if (!(min_span >= 0)) {
         ret = tsk_trace_error(TSK_ERR_BAD_PARAM_VALUE);
         goto out;
     }
-    if (max_time < 0) {
+    if (!(max_time >= 0)) {
         ret = tsk_trace_error(TSK_ERR_BAD_PARAM_VALUE);
         goto out;
     }
